@@ -55,6 +55,7 @@ type Ctx struct {
 	fnsSeen  map[*ssa.Function]bool
 	Notes    []string
 	ruleDesc map[string]string
+	counters map[string]int // per-run ordinals for instance keys
 }
 
 func newCtx(P *Prog, prop, tier string) *Ctx {
